@@ -455,6 +455,53 @@ def shell_edge_stream(res):
                 break
 
 
+def shell_multi_stream(res):
+    """whole pipeline in multi-language mode: the same foreign passage several
+    times, a match in every copy and in the text around them -- every match
+    highlighted once, at its own place"""
+    ger = '\\foreignlanguage{german}{Ein Fehlerr steht hier in diesem ganzen langen Satz.}'
+    tex = ('English text with a Worrt here. ' + ger + '\nMore English words follow now and a secondd one. '
+           + ger + '\nThe end of it. ' + ger + '\n')
+    for ctx in (-1, 0, 2):
+        tex2, parts = shellcase.shell_parts(tex, 'en-GB', True, 2)
+        plain_tot = ''
+        cm_tot = []
+        ms_tot = []
+        answers = []
+        for lang, plain, cm in parts:
+            ms = []
+            for w in ('Fehlerr', 'Worrt', 'secondd'):
+                k = plain.find(w)
+                while k >= 0:
+                    ms.append(shellcase.lt_match(plain, k, len(w), rule='R_' + w))
+                    k = plain.find(w, k + 1)
+            if plain.strip():       # blank parts are not submitted
+                answers.append(json.dumps({'matches': ms}).encode())
+            for m in ms:
+                m2 = json.loads(json.dumps(m))
+                m2['offset'] += len(plain_tot)
+                ms_tot.append(m2)
+            plain_tot += plain + '\n\n'
+            cm_tot += cm + [cm[-1]] * 2
+        r = shellrun.run_shell({'t.tex': tex}, ['--language', 'en-GB', '--multi-language', '--ml-continue-threshold', '2',
+                                                '--output', 'html', '--context', str(ctx), 't.tex'], answers=answers)
+        res.count('shell-multi', ('multi', ctx), nontrivial=True)
+        key = 'c16-multi:%d' % ctx
+        case = {'tex': tex, 'context': ctx, 'multi': True}
+        if r.rc != 0 or r.traceback:
+            res.failures.append((key, case, 'shell failed: rc %d %s' % (r.rc, r.err[-200:])))
+            continue
+        if len(r.calls) != len(answers):
+            res.failures.append((key, case, '%d submissions, %d non-blank text parts' % (len(r.calls), len(answers))))
+            continue
+        out = r.out.decode('utf-8')
+        body = out[out.find('<body>') + 7:out.rfind('</body>')]
+        c = {'tex': tex2, 'cm': cm_tot, 'matches': ms_tot, 'context': ctx, 'file': 't.tex'}
+        bad = oracle(c, body)
+        if bad:
+            res.failures.append((key, case, '; '.join(bad[:3])))
+
+
 def run(tier, seed, build, res):
     rng = random.Random(seed)
     res.rule = ('random source files (empty / very long lines, tabs, HTML '
@@ -472,6 +519,7 @@ def run(tier, seed, build, res):
     link_stream(rng, res, 200 if tier == 'quick' else 3000)
     shell_sample(rng, res, 4 if tier == 'quick' else 16)
     shell_edge_stream(res)
+    shell_multi_stream(res)
 
 
 def replay(payload, build, res):
